@@ -101,6 +101,12 @@ def ob_raster(t0: float, dt: float, f0: float, df: float,
     vals = [v1, v2][: len(geoms)]
     if second == "before":
         geoms, spans = geoms[::-1], spans[::-1]
+    if second == "both":
+        # fixed box, symbolic geometry, the same fixed box again; first and last share their value: the last one
+        # must still overwrite what the middle one burnt
+        geoms = [geoms[1], geoms[0], data.BoundingBox(coordinates=[c0, e0, c1, e1])]
+        spans = [spans[1], spans[0], spans[1]]
+        vals = [v2, v1, v2]
     values = v1 if scalar_value else vals
     if scalar_value:
         vals = [v1] * len(geoms)
@@ -189,6 +195,10 @@ def plan():
                                   dict(nt=nt, nf=nf, order=order, kind=kind, second=second),
                                   q if qk else ("thorough",),
                                   twins=("some", "none") if second is None else ("overwritten",), twin_timeout=300))
+    for (nt, nf, order, kind) in ((2, 2, "ft", "box"), (2, 3, "tf", "interval"), (3, 3, "ft", "box")):
+        obs.append(Ob("raster-%dx%d-%s-%s-sandwich" % (nt, nf, order, kind), ob_raster, "real", 2400,
+                      dict(nt=nt, nf=nf, order=order, kind=kind, second="both"), q if nt == 2 and nf == 2 else ("thorough",),
+                      twins=("overwritten",), twin_timeout=300))
     obs.append(Ob("value-list-length", ob_raster_errors, "real", 300, {}, q, twins=("rejected",)))
     for (nt, nf, order) in ((2, 2, "ft"), (2, 3, "tf"), (3, 3, "ft")):
         obs.append(Ob("all-touched-%dx%d-%s" % (nt, nf, order), ob_all_touched, "real", 2400,
